@@ -270,7 +270,7 @@ func genC06(c *RunCtx) []*Batch {
 			distinct++
 		}
 		rc := &RunCfg{Opts: optSubset(r.Intn(16), false), Events: r.Intn(8) == 0, Undefined: r.Intn(3) == 0,
-			VarNames: append(append(append([]string{}, boolVars...), intVars...), "li0", "ls0", "s0", "f0")}
+			VarNames: append(append(append([]string{}, boolVars...), intVars...), "li0", "ls0", "s0", "s1", "f0", "ss0", "ss1", "si0")}
 		built := rc.Build()
 		if infix {
 			built.Conf.CompileOptions[eval.InfixNotation] = true
@@ -301,6 +301,13 @@ func genC06(c *RunCtx) []*Batch {
 		if r.Intn(4) == 0 {
 			bd.Vals["b0"] = nil
 			bd.Vals["i0"] = []int64{1}
+		}
+		// sets are legitimate values (the collection operand of `in`): wherever they end up, the answer is a value or an error
+		bd.Vals["ss0"], bd.Vals["ss1"] = map[string]struct{}{"a": {}, "b": {}}, map[string]struct{}{"a": {}}
+		bd.Vals["si0"] = map[int64]struct{}{1: {}, 2: {}}
+		if r.Intn(6) == 0 {
+			bd.Vals["s0"], bd.Vals["s1"] = bd.Vals["ss0"], bd.Vals["ss1"]
+			bd.Vals["li0"] = bd.Vals["si0"]
 		}
 		if kind == "large" {
 			// a binding that does not short-circuit: every operand is evaluated
@@ -349,7 +356,8 @@ func genC06(c *RunCtx) []*Batch {
 			samples = append(samples, clip(src, 120))
 		}
 	}
-	for _, s := range []string{"", " ", "\n\t", ";", "; only a comment", ";;;; optimize:false", "()", "(", ")", "(())", "(and)", "(if)", "(if true 1)", "\"", "(= \"a", "(+ 1 2", "+ 1 2)", "((+ 1 2))", "(1 2 3)", "(+ (1 2) 3)", "(= (1 2) (1 2))", "(in 1 ())", "(overlap () ())", "(not)", "(nosuchop 1)", "(+ 1 unknownvar)", "(let x 1)", "(and true (or))", "(if 5 1 2)"} {
+	for _, s := range []string{"", " ", "\n\t", ";", "; only a comment", ";;;; optimize:false", "()", "(", ")", "(())", "(and)", "(if)", "(if true 1)", "\"", "(= \"a", "(+ 1 2", "+ 1 2)", "((+ 1 2))", "(1 2 3)", "(+ (1 2) 3)", "(= (1 2) (1 2))", "(in 1 ())", "(overlap () ())", "(not)", "(nosuchop 1)", "(+ 1 unknownvar)", "(let x 1)", "(and true (or))", "(if 5 1 2)",
+		"(= ss0 ss1)", "(= ss0 ss0)", "(!= ss0 ss1)", "(eq ss0 ss1 ss0)", "(ne si0 si0)", "(= ss0 1)", "(in \"a\" ss0)", "(in 1 si0)", "(in ss0 ss1)", "(overlap ss0 ss1)", "(and (= si0 si0) true)", "(if (= ss0 ss1) 1 2)", "(+ ss0 1)", "(not ss0)", "(between si0 1 2)"} {
 		try(s, false, "handwritten")
 	}
 	for _, s := range []string{"", " ", ";", "a +", "* a", "+", "a * !b", "[", "1 + [", "]", "1 + ", "(1", "1)", "f(", "f(1,", "f(,)", "if(true,1)", "if(true,1,2,3)", "!!true", "!", "1 2", "a b", "[1, \"a\"]", "[1 2]", "c_now()", "c_sum(1,)", ",", "(,)", "1 + (2", "!(1", "a && ", "|| a", "a == == b"} {
